@@ -75,10 +75,17 @@ def _cause(r, why):
             return "header-values-repeated-in-same-named-trailer"   # judged against RawDef(D1): X-Both
         d = r["def"]
         hm, tm, om = _hdr_map(d["hdrs"]), _hdr_map(d["trls"]), _hdr_map(obs["trls"])
-        both = [n for n in tm if n in hm]
-        ok_others = all(om.get(n) == tm[n] for n in tm if n not in both) and set(om) == set(tm)
-        if both and ok_others and all(sorted(om.get(n, [])) == sorted(tm[n] + hm[n]) or om.get(n) == tm[n] for n in both) \
-                and any(om.get(n) != tm[n] for n in both):
+        declared = {h["cname"] for h in d["trls"]}          # also entries without values are announced
+        both = [n for n in declared if n in hm]
+
+        def leaked(n):   # the given trailer values plus k >= 1 copies of the same-named header's values
+            got, want = sorted(om.get(n, [])), tm.get(n, [])
+            for k in range(1, 8):
+                if got == sorted(want + hm[n] * k):
+                    return True
+            return False
+        others_ok = all(om.get(n) == tm[n] for n in tm if n not in both) and all(n in declared for n in om)
+        if both and others_ok and all(leaked(n) or om.get(n) == tm.get(n) for n in both) and any(leaked(n) for n in both):
             return "header-values-repeated-in-same-named-trailer"
         spell = {}
         for h in d["trls"]:
@@ -93,11 +100,11 @@ def _cause(r, why):
             return "nil-message-contents"
         if "closed pipe" in obs.get("err", "") and r["fl"] == "pipe":
             return "sink-closed-by-identity-compressor"
-    if kind == "resp" and obs.get("err") and obs.get("status") == 0 and _has_absent(r["def"]["body"]):
-        return "nil-message-contents"
+    if kind == "resp" and obs.get("err") and _has_absent(r["def"]["body"]):
+        return "nil-message-contents"     # the connection is aborted where the item without payload is reached
     if kind == "req":
         d = r["def"]
-        if "nil pointer dereference" in obs.get("err", "") and (
+        if ("nil pointer dereference" in obs.get("err", "") or "process died" in obs.get("err", "")) and (
                 _has_absent(d["body"]) or any(e["m"]["p"] == "absent" for e in d["encq"])):
             return "nil-message-contents"
         if why == "body" and _closes_identity_sink(d["body"]) and not obs.get("err"):
@@ -138,14 +145,25 @@ class Stage:
         ctx.log("%s/%s: %d records, %d rejected by Trace_RawHTTP" % (self.name, tag, len(recs), len(rej)))
         if not rej:
             return recs
-        # reproduce: each distinct (definition, flavour) again, 5 times
-        todo, seen = [], {}
+        # reproduce: each distinct (definition, flavour) again, 5 times; of the records that show one and
+        # the same classified mechanism in one flavour only the first few are re-run (and reported)
+        todo, seen, per_group = [], {}, {}
         for i, why in sorted(rej.items()):
             r = recs[i]
             k = (r["id"], r["fl"])
-            if k not in seen:
-                seen[k] = (r, why)
-                todo.append(repro_scn(r))
+            if k in seen:
+                continue
+            cause = _cause(r, why)
+            g = (r["fl"], why, cause)
+            per_group[g] = per_group.get(g, 0) + 1
+            if cause != "unclassified" and per_group[g] > 3:
+                continue
+            seen[k] = (r, why)
+            todo.append(repro_scn(r))
+        self.ctx.notes.setdefault("rejected_by_mechanism", {})
+        for (fl, why, cause), n in per_group.items():
+            m = self.ctx.notes["rejected_by_mechanism"]
+            m[cause] = m.get(cause, 0) + n
         e2 = dict(env)
         e2.pop("VERIF_RANDOM", None)
         e2["VERIF_REPS"] = 5
@@ -215,9 +233,9 @@ def run(ctx):
     g_body = ctx.tlc("Gen_RawHTTPDefs", "Gen_RawHTTPDefs_body.cfg", timeout=3000).json_lines("SCN ")
     n_resp_all, n_req_all = len(g_resp), len(g_req)
     if q:   # quick: a seeded sample of the enumerated domain (thorough: all of it)
-        g_resp = _sample(g_resp, 450, rnd)
-        g_req = _sample(g_req, 400, rnd)
-        g_body = _sample(g_body, 300, rnd)
+        g_resp = _sample(g_resp, 300, rnd)
+        g_req = _sample(g_req, 250, rnd)
+        g_body = _sample(g_body, 250, rnd)
     ctx.log("behaviours %d; response definitions %d of %d; request definitions %d of %d; bodies %d" % (
         len(ops), len(g_resp), n_resp_all, len(g_req), n_req_all, len(g_body)))
 
@@ -263,6 +281,12 @@ def run(ctx):
     ops_l = ids(ops)
     recs_ops = st_ops.run("gen", ops_l, defs_env, lambda r: dict(ops_l[r["id"]], _id=r["id"]),
                           "arbitration behaviour replayed on rawResponder")
+    if not q:   # thorough: all behaviours with one more operation, over the recorder
+        ops5 = ids(ctx.tlc("Gen_RawHTTP", "Gen_RawHTTP_t5.cfg", timeout=3000).json_lines("SCN "))
+        env5 = dict(defs_env, VERIF_FLAVOURS="rec")
+        recs_ops += st_ops.run("gen5", ops5, env5, lambda r: dict(ops5[r["id"]], _id=r["id"]),
+                               "arbitration behaviour replayed on rawResponder")
+        ctx.notes["behaviours_5_ops"] = len(ops5)
     # 3b. response definitions through the real reference server
     recs_resp = st_resp.run("gen", ids(g_resp), dict(VERIF_COMBOS=3 if q else 8), repro_def,
                             "raw response sent by the reference server")
@@ -273,7 +297,7 @@ def run(ctx):
     recs_enc = st_enc.run("gen", ids(g_body), {}, repro_body, "body encoder")
 
     # ------------------------------------------------------------------ 4. beyond the TLC domain: seeded random definitions
-    n_rand = 300 if q else 4000
+    n_rand = 160 if q else 4000
     recs_resp += st_resp.run("random", None, dict(VERIF_RANDOM=n_rand, VERIF_COMBOS=2 if q else 4), repro_def,
                              "random raw response sent by the reference server")
     recs_req += st_req.run("random", None, dict(VERIF_RANDOM=n_rand // 2, VERIF_COMBOS=2), repro_def,
